@@ -9,9 +9,6 @@ import (
 	"encoding/json"
 	"errors"
 	"fmt"
-	"os"
-	"runtime"
-	"runtime/debug"
 	"sort"
 	"strings"
 	"sync"
@@ -64,12 +61,7 @@ type c10Obs struct {
 
 func (o *c10Obs) next() int { o.seq++; return o.seq }
 
-type c10Verdict struct {
-	key    string
-	detail string
-}
-
-func c10RunOne(t *testing.T, sc c10Scenario, prefix []int, expect []gate.PointRec) (x *gate.Exec, obs *c10Obs, fp *fakeProc, verdicts []c10Verdict, leak string) {
+func c10RunOne(t *testing.T, sc c10Scenario, prefix []int, expect []gate.PointRec) (x *gate.Exec, obs *c10Obs, fp *fakeProc, verdicts []gateVerdict, leak string) {
 	defer func() {
 		if r := recover(); r != nil {
 			leak = fmt.Sprint(r)
@@ -97,7 +89,7 @@ func c10RunOne(t *testing.T, sc c10Scenario, prefix []int, expect []gate.PointRe
 			}
 			obs.Callbacks = append(obs.Callbacks, cb)
 		}
-		if !c10NoCache {
+		if !gateNoCache {
 			cr := runner.(*clientProcessRunner)
 			x.KeyFn = func() string {
 				var sb strings.Builder
@@ -202,12 +194,10 @@ func c10RunOne(t *testing.T, sc c10Scenario, prefix []int, expect []gate.PointRe
 	return
 }
 
-var c10NoCache = os.Getenv("VERIF_NOCACHE") == "1"
-
-func c10Judge(sc c10Scenario, obs *c10Obs, fp *fakeProc, x *gate.Exec) []c10Verdict {
-	var out []c10Verdict
+func c10Judge(sc c10Scenario, obs *c10Obs, fp *fakeProc, x *gate.Exec) []gateVerdict {
+	var out []gateVerdict
 	add := func(key, format string, a ...any) {
-		out = append(out, c10Verdict{key, fmt.Sprintf(format, a...)})
+		out = append(out, gateVerdict{key, fmt.Sprintf(format, a...)})
 	}
 	obs.mu.Lock()
 	defer obs.mu.Unlock()
@@ -279,6 +269,17 @@ func c10Judge(sc c10Scenario, obs *c10Obs, fp *fakeProc, x *gate.Exec) []c10Verd
 	for n, c := range respCount {
 		if c > emitted[n] {
 			add("phantom-response", "test %q got %d response callback(s) but the client answered it %d time(s)", n, c, emitted[n])
+		}
+	}
+	if sc.Main != "stop" && len(obs.SendPending) == 0 && obs.MainDone {
+		for n, c := range fp.cleanAnswers() {
+			want := c
+			if accepted[n] < want {
+				want = accepted[n]
+			}
+			if respCount[n] < want {
+				add("answer-lost", "the client answered %q %d time(s) on a well-formed output stream (accepted sends: %d) but only %d callback(s) carried a response (callbacks: %+v)", n, c, accepted[n], respCount[n], obs.Callbacks)
+			}
 		}
 	}
 	if obs.PostDone && obs.PostSend == "ok" {
@@ -357,123 +358,19 @@ func c10Scenarios(thorough bool) []c10Scenario {
 func TestVerifC10(t *testing.T) {
 	r := rep.New("c10-gate")
 	defer r.Write()
-	debug.SetGCPercent(-1)
 	r.Rule = "scenario = sender threads x request names x client fault x fault threshold x cut offset x stdin fault; every scenario explored by DFS over all gate choices up to the preemption bound; an execution is non-trivial if it is a distinct (scenario, choice list); distinct outcomes = observation vectors"
-	if data := rep.ReplayInput(); data != nil {
-		var rj struct {
-			Replay struct {
-				Scenario c10Scenario `json:"scenario"`
-				Choices  []int       `json:"choices"`
-			} `json:"replay"`
-		}
-		if err := json.Unmarshal(data, &rj); err != nil {
-			t.Fatal(err)
-		}
-		x, obs, _, verdicts, leak := c10RunOne(t, rj.Replay.Scenario, rj.Replay.Choices, nil)
-		fmt.Printf("replay: scenario=%v\nchoices=%v\nobs=%+v\nleak=%q diverged=%q\n", rj.Replay.Scenario, x.Choices(), obs, leak, x.Diverged)
-		for i, p := range x.Points {
-			fmt.Printf("  %3d choose %d of %v\n", i, p.Chosen, p.Enabled)
-		}
-		for _, v := range verdicts {
-			r.Violate(v.key, v.detail, rj.Replay)
-			fmt.Printf("VERDICT %s: %s\n", v.key, v.detail)
-		}
-		r.Eval(1)
-		return
-	}
-	scs := c10Scenarios(rep.Thorough())
 	bound := 1
 	if rep.Thorough() {
 		bound = 2
 	}
-	deadline := rep.Deadline()
-	var totalStates, totalTrans, totalExecs int64
-	boundDoneAll := true
-	for si, sc := range scs {
-		// scenarios are dealt round-robin to shards; one shard explores a whole
-		// scenario so that its state cache is not split
-		if !r.Mine(int64(si)) {
-			continue
-		}
-		sc.Bound = bound
-		ex := &gate.Explorer{Bound: bound, Shard: 0, NShards: 1, Deadline: deadline}
-		execCount := 0
-		ex.RunOne = func(prefix []int, expect []gate.PointRec, owned bool) *gate.Exec {
-			x, obs, _, verdicts, leak := c10RunOne(t, sc, prefix, expect)
-			execCount++
-			if execCount%200 == 0 {
-				runtime.GC()
-			}
-			if x.Diverged != "" {
-				// retry once: a divergence must be reproducible to be a harness error
-				x2, _, _, _, _ := c10RunOne(t, sc, prefix, expect)
-				if x2.Diverged != "" {
-					r.Note("DIVERGENCE scenario=%v prefix=%v: %s", sc, prefix, x.Diverged)
-					r.Count("divergences", 1)
-				}
-				return x
-			}
-			if !owned {
-				return x
-			}
-			r.Eval(1)
-			r.NonTrivial("")
-			if leak != "" {
-				r.Count("leaks", 1)
-				r.Outcome("leak:" + firstLine(leak))
-			}
-			r.Outcome(c10Outcome(sc, obs))
-			if len(verdicts) > 0 {
-				for _, v := range verdicts {
-					// confirm by replaying the same schedule
-					ok := 0
-					for k := 0; k < 4; k++ {
-						_, _, _, v2, _ := c10RunOne(t, sc, x.Choices(), nil)
-						for _, w := range v2 {
-							if w.key == v.key {
-								ok++
-								break
-							}
-						}
-					}
-					if ok < 4 {
-						r.Note("UNSTABLE verdict %s on scenario %v choices %v (%d/4 replays)", v.key, sc, x.Choices(), ok)
-						r.Count("unstable", 1)
-						continue
-					}
-					r.Violate(v.key, v.detail+" | scenario="+sc.String()+fmt.Sprintf(" choices=%v", x.Choices()), map[string]any{"scenario": sc, "choices": x.Choices()})
-				}
-			}
-			if si%17 == 0 && len(prefix) == 3 {
-				r.Sample(map[string]any{"scenario": sc, "choices": x.Choices(), "outcome": c10Outcome(sc, obs)})
-			}
-			return x
-		}
-		ex.Explore()
-		totalStates += ex.Stats.States
-		totalTrans += ex.Stats.Transitions
-		totalExecs += ex.Stats.Executions
-		r.Count("pruned_by_bound", ex.Stats.PrunedByCost)
-		r.Count("pruned_by_state_cache", ex.Stats.PrunedByKey)
-		r.Count("distinct_state_keys", ex.Stats.DistinctKeys)
-		if ex.Stats.Capped {
-			boundDoneAll = false
-			r.NotExhaustive(fmt.Sprintf("budget reached in scenario %d of %d", si, len(scs)))
-			break
-		}
-		if ex.Stats.Exhausted {
-			r.Count("scenarios_exhausted_unbounded", 1)
-		}
-		r.Count("scenarios", 1)
+	scs := c10Scenarios(rep.Thorough())
+	for i := range scs {
+		scs[i].Bound = bound
 	}
-	r.Count("states", totalStates)
-	r.Count("transitions", totalTrans)
-	r.Count("executions", totalExecs)
-	r.Extra["preemption_bound"] = bound
-	r.Extra["bound_completed_for_all_scenarios"] = boundDoneAll
-	if r.Counters["divergences"] > 0 {
-		t.Errorf("schedule replay diverged %d time(s); see notes", r.Counters["divergences"])
-	}
+	gateExplore(t, r, scs, bound, func(sc c10Scenario, prefix []int, expect []gate.PointRec) gateRun {
+		x, obs, _, verdicts, leak := c10RunOne(t, sc, prefix, expect)
+		return gateRun{x: x, outcome: c10Outcome(sc, obs), verdicts: verdicts, leak: leak}
+	})
 }
 
 func firstLine(s string) string {
